@@ -154,6 +154,16 @@ func simC14pcap(c *sim.Ctx) {
 		if r.LinkType() != lt || r.Snaplen() != snap {
 			c.Fail(what, "header-mismatch", "NewReader", "link type %v snaplen %d, written %v %d", r.LinkType(), r.Snaplen(), lt, snap)
 		}
+		// what the copying call returned belongs to the caller: it is looked at
+		// again after all later reads
+		var keptD [][]byte
+		recheck := func() {
+			for i, d := range keptD {
+				if !bytes.Equal(d, pkts[i].data) {
+					c.Fail(what, "returned-packet-changed-by-later-read", "Reader", "packet %d returned by ReadPacketData no longer holds its bytes after later reads", i)
+				}
+			}
+		}
 		for i := 0; ; i++ {
 			var d []byte
 			var ci gopacket.CaptureInfo
@@ -164,6 +174,7 @@ func simC14pcap(c *sim.Ctx) {
 			}
 			want := i < len(pkts) && pkts[i].end <= upto
 			if err != nil {
+				recheck()
 				if want {
 					c.Fail(what, "packet-lost", "Reader", "packet %d (record ends at %d) not returned from prefix %d: %v", i, pkts[i].end, upto, err)
 				}
@@ -181,6 +192,9 @@ func simC14pcap(c *sim.Ctx) {
 			p := pkts[i]
 			if !bytes.Equal(d, p.data) || ci.CaptureLength != p.ci.CaptureLength || ci.Length != p.ci.Length || !ci.Timestamp.Equal(expectTS(p.ci.Timestamp)) {
 				c.Fail(what, "packet-differs", "Reader", "packet %d: got len %d caplen %d length %d ts %v; wrote len %d caplen %d length %d ts %v (zero-copy %v)", i, len(d), ci.CaptureLength, ci.Length, ci.Timestamp.UnixNano(), len(p.data), p.ci.CaptureLength, p.ci.Length, expectTS(p.ci.Timestamp).UnixNano(), zero)
+			}
+			if !zero {
+				keptD = append(keptD, d)
 			}
 		}
 	}
@@ -476,6 +490,28 @@ func simC14ng(c *sim.Ctx) {
 		if shbEnd := int(uint32(file[4]) | uint32(file[5])<<8 | uint32(file[6])<<16 | uint32(file[7])<<24); upto < shbEnd {
 			c.Fail(what, "opened-short-file", "NewNgReader", "reader opened on %d bytes (section header block ends at %d)", upto, shbEnd)
 		}
+		// what the copying call returned belongs to the caller (data, capture
+		// info with its ancillary link type, options): it is looked at again
+		// after all later reads
+		type keptT struct {
+			d  []byte
+			ci gopacket.CaptureInfo
+			o  pcapgo.NgPacketOptions
+		}
+		var kept []keptT
+		recheck := func() {
+			for i, k := range kept {
+				if !bytes.Equal(k.d, pkts[i].data) {
+					c.Fail(what, "returned-packet-changed-by-later-read", "NgReader", "packet %d returned by ReadPacketDataWithOptions no longer holds its bytes after later reads", i)
+				}
+				if mixed && (len(k.ci.AncillaryData) != 1 || k.ci.AncillaryData[0] != intfs[pkts[i].ci.InterfaceIndex].LinkType) {
+					c.Fail(what, "returned-packet-changed-by-later-read", "NgReader", "packet %d: the capture info returned by the copying call now says link type %v, its interface has %v (changed by later reads)", i, k.ci.AncillaryData, intfs[pkts[i].ci.InterfaceIndex].LinkType)
+				}
+				if !optsEqual(k.o, pkts[i].opts) {
+					c.Fail(what, "returned-packet-changed-by-later-read", "NgReader", "packet %d: options returned by the copying call changed after later reads: now %s, written %s", i, optStr(k.o), optStr(pkts[i].opts))
+				}
+			}
+		}
 		for i := 0; ; i++ {
 			var d []byte
 			var ci gopacket.CaptureInfo
@@ -487,6 +523,7 @@ func simC14ng(c *sim.Ctx) {
 			}
 			want := i < len(pkts) && pkts[i].end <= upto
 			if err != nil {
+				recheck()
 				if want {
 					c.Fail(what, "packet-lost", "NgReader", "packet %d (block ends at %d) not returned from prefix %d: %v", i, pkts[i].end, upto, err)
 				}
@@ -518,6 +555,9 @@ func simC14ng(c *sim.Ctx) {
 			}
 			if !optsEqual(o, p.opts) {
 				c.Fail(what, "options-differ", "NgReader", "packet %d: options read %s, written %s", i, optStr(o), optStr(p.opts))
+			}
+			if !zero {
+				kept = append(kept, keptT{d, ci, o})
 			}
 		}
 		if upto == len(file) {
